@@ -34,12 +34,17 @@ Hist2(e1, e2, rows) == [i \in 1..(Len(e1) - 1) |-> [j \in 1..(Len(e2) - 1) |->
 
 (* ---- rebin_histogram: overlap-proportional redistribution ---- *)
 Overlap(l1, r1, l2, r2) == Max2(0, Min2(r1, r2) - Max2(l1, l2))
-Rebin(h, src, dst) ==      \* h: counts per source class, src/dst: edge sequences -> sequence of rationals
+(* a histogram is a LIST of classes <<left, right, count>>: the classes need not be sorted, adjacent or disjoint
+   (combine_histogram keeps different binnings side by side, so an enclosing class may sit next to the classes it contains);
+   every class spreads its count over the target classes in proportion to the overlap *)
+RebinC(cls, dst) ==
   [j \in 1..(Len(dst) - 1) |->
      LET RECURSIVE Acc(_)
          Acc(i) == IF i = 0 THEN <<0, 1>>
-                   ELSE RAdd(Acc(i - 1), Norm(h[i] * Overlap(dst[j], dst[j+1], src[i], src[i+1]), src[i+1] - src[i]))
-     IN Acc(Len(h))]
+                   ELSE RAdd(Acc(i - 1), Norm(cls[i][3] * Overlap(dst[j], dst[j+1], cls[i][1], cls[i][2]), cls[i][2] - cls[i][1]))
+     IN Acc(Len(cls))]
+ClassesOfEdges(h, src) == [i \in 1..Len(h) |-> <<src[i], src[i+1], h[i]>>]
+Rebin(h, src, dst) == RebinC(ClassesOfEdges(h, src), dst)    \* h: counts per source class, src/dst: edge sequences -> sequence of rationals
 RECURSIVE RSum(_)
 RSum(s) == IF s = <<>> THEN <<0, 1>> ELSE RAdd(s[1], RSum(Tail(s)))
 Covers(dst, src) == dst[1] <= src[1] /\ src[Len(src)] <= dst[Len(dst)]
